@@ -126,8 +126,7 @@ theorem Inv_write {S : Edges} {s : MState} (hI : Inv S s) {a : Addr} {o : Oid} {
 
 /-- After an allocation, what is reachable is the new object or was reachable before. -/
 theorem ReachS_alloc {S : Edges} {st : Store} {roots : List Val} {a : Addr} {n : Oid} {v : Val}
-    (hv : ∀ b p, Inside S v (.ref b p) → ReachS S st roots b p)
-    (hfresh : ∀ b p, ReachS S st roots b p → p ≠ n) {b : Addr} {p : Oid}
+    (hv : ∀ b p, Inside S v (.ref b p) → ReachS S st roots b p) {b : Addr} {p : Oid}
     (hr : ReachS S (fun q => if q = n then some v else st q) (.ref a n :: roots) b p) :
     (b = a ∧ p = n) ∨ ReachS S st roots b p := by
   induction hr with
@@ -171,7 +170,7 @@ theorem Inv_alloc {S E : Edges} (hSE : ∀ k f, f ∈ S k → f ∈ E k) (P : Pa
     exact Nat.ne_of_lt (hI.ownerLt b p hown)
   refine { wf := hsp.wf, sim := ?_, ownerInj := ?_, ownerLt := ?_ }
   · intro b p hr
-    rcases ReachS_alloc hv hfresh hr with ⟨rfl, rfl⟩ | hold
+    rcases ReachS_alloc hv hr with ⟨rfl, rfl⟩ | hold
     · exact ⟨_, hsp.filled, rfl, rfl, by simp, by simp⟩
     · obtain ⟨c, hc, hcb, hcr, hst, hown⟩ := hI1.sim b p hold
       obtain ⟨c0, hc0, hc0a, hc0r⟩ := hsp.wasFree
